@@ -9,7 +9,7 @@ Theorems in Thm/C01.lean are re-checked on every run.
 import binascii
 from vf import core, acbuild
 
-THM = ["YaraModel.Thm.C01", "YaraModel.Thm.AcCert", "YaraModel.Thm.AcBuild", "YaraModel.Thm.C01EndToEnd"]
+THM = ["YaraModel.Thm.C01", "YaraModel.Thm.AcCert", "YaraModel.Thm.AcBuild", "YaraModel.Thm.C01EndToEnd", "YaraModel.Thm.AcLayout"]
 MANIFEST = dict(
     technique="Lean 4 proofs (atoms cover every variant for every window choice; verify = spec; sorted de-duplicated insertion; pipeline = spec for every complete candidate set) + spec-level correspondence of the real engine against the Lean specification",
     text="proof: Thm/C01.lean proves for ALL strings, ALL legal modifier sets / xor ranges, ALL atom-window choices (hence all quality heuristics) and ALL buffers that the "
@@ -25,7 +25,7 @@ MANIFEST = dict(
          "and the specification sequence, order included, on every generated rule set and buffer (sampled). "
          "Thm/C01EndToEnd.lean composes the two (text_strings_end_to_end): for every rule set of text strings sharing one automaton, every window choice and every buffer, "
          "the model's whole chain atoms -> construction -> scan -> verification -> insertion reports exactly each string's documented occurrences, with no hypothesis "
-         "about the candidate stage left (the two known deviations F19 / F20 of the verification step remain as explicit hypotheses).",
+         "about the candidate stage left (the two known deviations F19 / F20 of the verification step remain as explicit hypotheses). The generator includes strings whose occurrences exceed YR_CONFIG_MAX_MATCH_DATA (> 512 bytes, > 256 characters + wide) and cases with that limit lowered to 0..8: the reported match_length must stay the true length. Thm/AcLayout.lean (definitions regenerated from types.h / ahocorasick.[ch] by translators/aclayout.py) checks that the C fields a transition-table slot passes through are wide enough for the builder's own size limit and that the model's constants are the code's.",
     design_ref="DESIGN.md §5 C01",
     note=core.TB + "Hooks H3/H4 are trusted to report truthfully. Buffers are single blocks.")
 
@@ -322,8 +322,8 @@ def run_b64(chk, b, tier, r):
 
 def run(tier, replay=None):
     chk = core.Check("C01", tier)
-    lres = core.lean_check(THM)
-    core.proof_coverage(chk, lres, THM)
+    lres = core.lean_check(THM, translators=["aclayout"])     # Gen/AcLayout.lean: field widths / constants of the automaton tables, from the sources
+    core.proof_coverage(chk, lres, THM, translators=lres.get("translators"))
     b = core.build("asan", harness=["h_scan"])
     if replay and replay.get("acbuild"):                 # a filed construction mismatch: recompile that rule set, rebuild, compare
         core.handle_broken_proof(chk, lres, acbuild.replay(chk, b, replay))
